@@ -107,6 +107,28 @@ SPECS += [
          props=["C19"], **SCHED_COMMON),
 ]
 
+# ---- schedule.py : components that are linked but not part of the composition (C19) -------------------------------
+_ITEMS = {"comp.inputs.items()": ("(List.map (fun i => ((), i)) (h.inputs comp))", "List[Tuple[Unit,Obj]]"),
+          "comp.outputs.items()": ("(List.map (fun i => ((), i)) (h.outputs comp))", "List[Tuple[Unit,Obj]]")}
+SPECS += [
+    dict(lean="collect_inputs_outputs", path="schedule.py", qual="_collect_inputs_outputs", group="Missing",
+         params={"components": "List[Obj]"}, ret="Tuple[Set[Obj],Set[Obj]]",
+         consts={"set()": ("([] : List Nat)", "Set[Obj]"), **_ITEMS},
+         fuel={"isinstance(inp, IInput)": "lean:(h.size + 1)", "len(targets) > 0": "lean:(h.size + 1)"},
+         props=["C19"], **SCHED_COMMON),
+    dict(lean="check_missing_components", path="schedule.py", qual="_check_missing_components", group="Missing",
+         params={"components": "List[Obj]"}, ret="Unit",
+         consts={"{inp for comp in components for inp in comp.inputs.values()}":
+                     ("(Py.setOfList (components.flatMap h.inputs))", "Set[Obj]"),
+                 "{out for comp in components for out in comp.outputs.values()}":
+                     ("(Py.setOfList (components.flatMap h.outputs))", "Set[Obj]"),
+                 "inputs - comp_inputs": ("(Py.setDiff inputs comp_inputs)", "Set[Obj]"),
+                 "outputs - comp_outputs": ("(Py.setDiff outputs comp_outputs)", "Set[Obj]")},
+         calls={"_collect_inputs_outputs": {"lean": "collect_inputs_outputs", "args": [0], "argtypes": ["List[Obj]"],
+                                            "heap": True, "ret": "Tuple[Set[Obj],Set[Obj]]"}},
+         raises={"FinamConnectError": "Err.connectErr"}, props=["C19"], **SCHED_COMMON),
+]
+
 INTEG_COMMON = dict(
     path="adapters/time_integration.py", group="Integ", ret="Rat",
     calls={"self._unpack": "id", "interpolate": {"lean": "interpolate", "args": [0, 1, 2], "ret": "Rat"}},
